@@ -269,6 +269,11 @@ func runRoundTrip(c *C) {
 	per := c.N(40, 1500)
 	for _, r := range rs {
 		r.Flat.Send(c)
+		// round trips after in-place mutation histories (a Marshal that follows earlier Size/Marshal calls and
+		// mutations — incl. emptying a child — must still encode the current content)
+		for i := 0; i < per/4+1 && !c.Failed(); i++ {
+			cacheHistory(c, r)
+		}
 		for i := 0; i < per && !c.Failed(); i++ {
 			for _, dyn := range []bool{false, true} {
 				m := newFilled(c, r, dyn, Opts{NegZero: true})
